@@ -9,14 +9,14 @@ LEVEL = 'exploration'
 SHARD_TIMEOUT = {'quick': 900, 'thorough': 7200}
 RULE = ('case = (exception kind) x (source mode legal for the configuration and security state) x T x IT class x A/I/F x '
         'SCTLR.{V,VE,TE,EE} x SCR.{NS,EA,IRQ,FIQ,AW,FW} x HCR.{TGE,IMO,FMO,AMO} x HSCTLR.{TE,EE} x VBAR/MVBAR/HVBAR x PC '
-        'in {0, mid, top of the address space} x configuration in {no extensions, Security, Security+Virtualization}; all '
+        'in {0, mid, top of the address space} x configuration in {no extensions, Security, Security+Virtualization, and two with the IMPLEMENTATION DEFINED reset / VE interrupt vectors of the configuration file moved}; all '
         'factors drawn independently at random (every pair of factor values occurs many times); the full post-state is '
         'compared with the reference entry. source state ThumbEE (J = T = 1) for a fifth of the Thumb-state direct entries; Hyp traps taken from inside a stepped WFI/WFE (HCR.TWI/TWE); non-trivial = always (an entry changes mode/SPSR/LR/PC); distinct = (kind, '
         'route taken, source mode, T, configuration)')
 ASSUMPTIONS = ['vf/ref/model.py transcribes TakeUndefInstrException ... TakePhysicalFIQException / EnterMonitorMode / '
                'EnterHypMode / TakeReset; HSR contents are UNKNOWN for the routed cases and not compared',
                'external / asynchronous aborts cannot be generated (mock hooks return False), so their routing is not exercised']
-CFGS = ['v6-pmsa', 'v6-pmsa-sec', 'v7-vmsa-sec', 'v7-vmsa-virt', 'v5-pmsa']
+CFGS = ['v6-pmsa', 'v6-pmsa-sec', 'v7-vmsa-sec', 'v7-vmsa-virt', 'v5-pmsa', 'v6-pmsa-sec-impdef', 'v7-vmsa-virt-impdef']
 KINDS = ['undef', 'svc', 'smc', 'dabort', 'irq', 'fiq', 'hyptrap', 'reset', 'svc-insn', 'udf-insn', 'hyptrap-insn']
 
 
@@ -28,6 +28,8 @@ def plan(tier, seed):
 def _reset_bad(cfg, post):
     vbar_reset = int(cfg['reset_values'].get('VBAR', '0b0'), 2)
     want_pc = (0xFFFF0000 if (post['sctlr'] >> 13) & 1 else (vbar_reset if cfg['have_security_ext'] else 0)) & ~1
+    if cfg.get('has_imp_def_reset_vector'):
+        want_pc = cfg['impdef_reset_vector'] & ~1          # TakeReset: HasIMPDEFResetVector() comes before ExcVectorBase()
     c = post['cpsr']
     bad = []
     if (c & 0x1F) != 0x13:
